@@ -46,9 +46,12 @@ Proof.
     injection Hs as Hs. subst m. exists i, j, c. split; [reflexivity|].
     exact (search_MC U0 false w r i j c Hsr). }
   destruct p; try (exact (Hsearch H)).
-  destruct (match_at U0 false w r 0) as [[j c]|] eqn:Hm; [|discriminate].
+  destruct (fullmatch_at U0 w r) as [[j c]|] eqn:Hm; [|discriminate].
   injection H as H. subst m. exists 0, j, c. split; [reflexivity|].
-  exact (match_at_MC U0 false w r 0 j c (Nat.le_0_l _) Hm).
+  unfold fullmatch_at in Hm.
+  destruct (m_MC U0 false w r 0 [] _ _ (Nat.le_0_l _) Hm) as [j' [c' [HMC Hk]]].
+  destruct (Nat.eqb j' (length w)); [|discriminate].
+  injection Hk as Hj' Hc'. subst j' c'. exact HMC.
 Qed.
 
 Lemma engine_search_not_year : forall U0 table p w,
